@@ -118,10 +118,21 @@ T_List == /\ Is("List") /\ UNCHANGED mvars /\ Keep
 StDrift == IF Ev.ev \in {"Add", "Remove", "Rename", "Flush"} /\ ~vskip' /\ Ev.st.has
               /\ (Ev.st.live # Cardinality(Present(vsess')) + vextra' \/ Ev.st.dirty # vdirty')
            THEN PrintT(<<"DRIFT", tl, "state">>) ELSE TRUE
-\* D: MutableArchive::read_file inside the session returns the session's view of the name (the
-\* property itself speaks about the state after close + reopen only)
+\* P: MutableArchive::read_file inside the session returns the session's view of the name
+\* (one of the property's observation points; "the map" is what the session shows before it is closed)
+SessionWhy(e) == IF vsess[e.n] = None THEN "ghost" ELSE IF e.res = "notfound" THEN "lost"
+                 ELSE IF e.res = "ok" THEN "stale" ELSE "unreadable"
+SessionModel(e) == LET ps == Rec[vreset].psr IN
+    IF e.oi > Len(ps) THEN "nopred"
+    ELSE LET v == ps[e.oi] IN
+         IF v = "-" THEN "nopred"
+         ELSE IF v = "none" THEN (IF e.res = "notfound" THEN "asmodel" ELSE "notmodel")
+         ELSE IF v \in BadPred THEN (IF e.res # "notfound" THEN "asmodel" ELSE "notmodel")
+         ELSE IF e.res = "ok" /\ v \in DOMAIN voptok /\ voptok[v] = e.tok THEN "asmodel" ELSE "notmodel"
 T_SRead == /\ Is("SRead") /\ UNCHANGED mvars /\ Keep
-           /\ IF vopen /\ Ev.res = "ok" /\ Ev.tok = vsess[Ev.n] THEN TRUE ELSE PrintT(<<"DRIFT", tl, "sessionread">>)
+           /\ IF vopen /\ ((vsess[Ev.n] = None /\ Ev.res = "notfound") \/ (vsess[Ev.n] # None /\ Ev.res = "ok" /\ Ev.tok = vsess[Ev.n]))
+              THEN TRUE
+              ELSE PrintT(<<"BAD", tl, "sessionread:" \o SessionWhy(Ev), SessionModel(Ev), "">>)
 T_Skip == ~Is("Reset") /\ UNCHANGED <<mvars, vreset, voptok, vskip, vhaslf>>
 
 TInit == tl = 1 /\ MapInit(<<>>, 0, 0) /\ vreset = 0 /\ voptok = <<>> /\ vskip = FALSE /\ vhaslf = FALSE
